@@ -414,17 +414,40 @@ func (g *Syn) scaleUp(p *ir.Node) {
 		// mostly 17..40 mixed levels; sometimes beyond any plausible fixed capacity:
 		// 130..200 nested functions (two context entries each) or 256..300 nested blocks
 		depth, only := 17+r.Intn(24, "nestdepth"), -1
-		switch r.Intn(4, "nestmode") {
+		mode := r.Intn(5, "nestmode")
+		switch mode {
 		case 2:
 			depth, only = 130+r.Intn(71, "fndepth"), 3+r.Intn(2, "fnkind")
 		case 3:
 			depth, only = 256+r.Intn(45, "blkdepth"), 0
+		case 4:
+			// a function below 60..300 levels that are not functions (blocks and
+			// the bodies of conditionals and loops), sometimes with another
+			// function around all of it
+			depth = 60 + r.Intn(241, "plaindepth")
+			if r.Intn(3, "plainsmall") == 0 {
+				depth = 60 + r.Intn(10, "plainedge")
+			}
 		}
 		var cur *ir.Node = ir.N(ir.Block, "", ir.N(ir.ExprStmt, "", ir.N(ir.Call, "", id("leaf"), id("a"))))
+		if mode == 4 {
+			inner := ir.N(ir.Block, "", ir.N(ir.ExprStmt, "", ir.N(ir.Call, "", id("leaf"), id("a"))), ir.N(ir.Return, "", id("a")))
+			if r.Bool("innerdecl") {
+				cur = ir.N(ir.Block, "", &ir.Node{K: ir.FuncDecl, Op: "deepest", Params: []string{"p"}, Kids: []*ir.Node{inner}}, ir.N(ir.ExprStmt, "", id("after")))
+			} else {
+				cur = ir.N(ir.Block, "", ir.N(ir.Let, "deepest", &ir.Node{K: ir.Func, Params: []string{"p"}, Kids: []*ir.Node{inner}}), ir.N(ir.ExprStmt, "", id("after")))
+			}
+		}
 		for i := 0; i < depth; i++ {
 			kind := only
 			if kind < 0 {
 				kind = r.Intn(5, "nestkind")
+			}
+			if mode == 4 {
+				kind = r.Intn(3, "plainkind")
+				if i == depth-1 && r.Intn(3, "outerfn") == 0 {
+					kind = 3
+				}
 			}
 			switch kind {
 			case 0:
@@ -457,6 +480,14 @@ func (g *Syn) scaleUp(p *ir.Node) {
 	case 2: // long tokens
 		long := strings.Repeat("longIdentifier_", 4+r.Intn(40, "idlen")) + "x"
 		text := strings.Repeat("some text ", 10+r.Intn(120, "strlen"))
+		if r.Intn(4, "hugetoken") == 0 {
+			// one token of more than 64 KiB at the very beginning: every later
+			// token of the compact output lies beyond column 65535, and the
+			// pretty output has a line longer than any common buffer size
+			text = strings.Repeat("sixteen bytes.. ", 4100+r.Intn(300, "hugelen"))
+			p.Kids = append([]*ir.Node{ir.N(ir.Let, "huge", StrOf(text, "\""))}, p.Kids...)
+			text = "short"
+		}
 		p.Kids = append(p.Kids, ir.N(ir.Let, long, StrOf(text, "\"")), ir.N(ir.ExprStmt, "", ir.N(ir.Assign, "=", id(long), ir.N(ir.Binary, "+", id(long), ir.N(ir.Num, "12345678901234567")))))
 	case 3: // many one-line statements with distinct names
 		n := 40 + r.Intn(100, "nlines")
